@@ -215,13 +215,13 @@ def c01(ctx):
         return
     stats = {}
     ctx.extra["runs"] = stats
-    ctx.extra["rule"] = "every permutation the independent models derive from the shipped configs x embedded suites is run by the real binaries exactly as `make runconformance` does; distinct = permutations that passed; quick: message-size suites on a reduced matrix, everything else complete; thorough: complete"
+    ctx.extra["rule"] = "every permutation the independent models derive from the shipped configs x embedded suites is run by the real binaries exactly as `make runconformance` does; distinct = permutations that passed; quick: message-size suites on a reduced matrix (HTTP/2 without TLS, every protocol, codec and compression), everything else complete; thorough: complete"
     import concurrent.futures as cf
     if ctx.tier == "quick":
         jobs = []
         for (label, conf, mode, kf, peer) in REFERENCE_RUNS:
             jobs.append((label, conf, mode, kf, peer, (), (SIZE_SUITE[mode] + "/**",), ()))
-            jobs.append((label + "-msgsize", conf, mode, kf, peer, (SIZE_SUITE[mode] + "/HTTPVersion:2/**/Compression:COMPRESSION_IDENTITY/TLS:false/**", SIZE_SUITE[mode] + "/HTTPVersion:2/**/Compression:COMPRESSION_GZIP/TLS:false/**"), (), ()))
+            jobs.append((label + "-msgsize", conf, mode, kf, peer, (SIZE_SUITE[mode] + "/HTTPVersion:2/**/TLS:false/**",), (), ()))
         for (label, conf, mode, kf, peer) in GRPC_RUNS:
             jobs.append((label, conf, mode, kf, peer, (), (), ()))
         with cf.ThreadPoolExecutor(2) as ex:
